@@ -148,6 +148,7 @@ type SymEnv struct {
 	elems  map[string]Aff // "base[idx]" -> value stored on this path
 	names  map[types.Object]string
 	nCall  int
+	Self   *types.Func // the function being analysed: a self-recursive call is a re-dispatch, its effects are not applied
 	// Inline, when set, is asked for a summary of a package-local call; it returns true if it handled the call.
 	OnCall func(env *SymEnv, call *ast.CallExpr, name string) (Aff, bool)
 }
@@ -172,6 +173,7 @@ func (e *SymEnv) clone() *SymEnv {
 	}
 	n.nCall = e.nCall
 	n.OnCall = e.OnCall
+	n.Self = e.Self
 	return n
 }
 
@@ -631,6 +633,133 @@ func (p *GoProg) execCall(sp *SymPath, env *SymEnv, call *ast.CallExpr, node ast
 	}
 	val := env.Eval(call)
 	sp.Effects = append(sp.Effects, SymEffect{Kind: "call", Target: name, Base: recv, Val: val, Args: args, Node: node, At: at})
+	// side effects of package-local callees on their receiver / pointer arguments
+	if fn, ok := p.Callee(call).(*types.Func); ok && fn.Pkg() == p.Pkg.Types && fn != env.Self {
+		fd := p.declOf(fn)
+		if recv != "" && fd != nil {
+			sig := fn.Type().(*types.Signature)
+			if _, isPtr := sig.Recv().Type().(*types.Pointer); isPtr {
+				for _, suf := range p.RecvWrites(fd) {
+					env.nCall++
+					env.fields[recv+suf] = affAtom(fmt.Sprintf("%s%s@%s#%d", recv, suf, fn.Name(), env.nCall))
+					for k := range env.fields {
+						if strings.HasPrefix(k, recv+suf+".") {
+							delete(env.fields, k)
+						}
+					}
+				}
+			}
+		}
+		for _, a := range call.Args {
+			if pt, ok := p.Info.TypeOf(a).(*types.Pointer); ok {
+				if _, isStruct := pt.Elem().Underlying().(*types.Struct); isStruct {
+					if path, ok := env.lvalPath(a); ok {
+						path = env.substRoot(path, a)
+						for k := range env.fields {
+							if strings.HasPrefix(k, path+".") {
+								delete(env.fields, k)
+							}
+						}
+						if u, isAddr := ast.Unparen(a).(*ast.UnaryExpr); isAddr && u.Op == token.AND {
+							if id, isID := ast.Unparen(u.X).(*ast.Ident); isID {
+								env.nCall++
+								env.vars[p.ObjOf(id)] = affAtom(fmt.Sprintf("%s@%s#%d", env.nameOf(id), fn.Name(), env.nCall))
+							}
+						}
+					}
+				}
+			}
+		}
+	}
+}
+
+// declOf finds the declaration of a package-local function object.
+func (p *GoProg) declOf(fn *types.Func) *ast.FuncDecl {
+	for _, fd := range p.funcs {
+		if p.Info.Defs[fd.Name] == fn {
+			return fd
+		}
+	}
+	return nil
+}
+
+// RecvWrites returns the receiver field paths (".off", ".tape.Tape", …) a method may assign, transitively through
+// package-local methods called on the same receiver.
+func (p *GoProg) RecvWrites(fd *ast.FuncDecl) []string {
+	if p.recvWrites == nil {
+		p.recvWrites = map[*ast.FuncDecl][]string{}
+	}
+	if w, ok := p.recvWrites[fd]; ok {
+		return w
+	}
+	p.recvWrites[fd] = nil // cycle guard
+	set := map[string]bool{}
+	if fd.Recv != nil && len(fd.Recv.List) == 1 && len(fd.Recv.List[0].Names) == 1 && fd.Body != nil {
+		robj := p.ObjOf(fd.Recv.List[0].Names[0])
+		pathOf := func(e ast.Expr) (string, bool) {
+			suf := ""
+			for {
+				switch v := ast.Unparen(e).(type) {
+				case *ast.SelectorExpr:
+					suf = "." + v.Sel.Name + suf
+					e = v.X
+					continue
+				case *ast.IndexExpr:
+					e = v.X
+					suf = "" + suf
+					// element store: report the slice field itself
+					continue
+				case *ast.StarExpr:
+					e = v.X
+					continue
+				case *ast.Ident:
+					if p.ObjOf(v) == robj {
+						return suf, true
+					}
+				}
+				return "", false
+			}
+		}
+		ast.Inspect(fd.Body, func(n ast.Node) bool {
+			switch s := n.(type) {
+			case *ast.AssignStmt:
+				for _, l := range s.Lhs {
+					if _, isIdx := ast.Unparen(l).(*ast.IndexExpr); isIdx {
+						continue // element stores do not change the field value itself
+					}
+					if suf, ok := pathOf(l); ok && suf != "" {
+						set[suf] = true
+					} else if ok && suf == "" {
+						set["*"] = true
+					}
+				}
+			case *ast.IncDecStmt:
+				if suf, ok := pathOf(s.X); ok && suf != "" {
+					set[suf] = true
+				}
+			case *ast.CallExpr:
+				if sel, ok := ast.Unparen(s.Fun).(*ast.SelectorExpr); ok {
+					if id, ok := ast.Unparen(sel.X).(*ast.Ident); ok && p.ObjOf(id) == robj {
+						if fn, ok := p.Callee(s).(*types.Func); ok && fn.Pkg() == p.Pkg.Types {
+							if cd := p.declOf(fn); cd != nil && cd != fd {
+								for _, w := range p.RecvWrites(cd) {
+									set[w] = true
+								}
+							}
+						}
+					}
+				}
+			}
+			return true
+		})
+	}
+	var out []string
+	for k := range set {
+		out = append(out, k)
+	}
+	sort.Strings(out)
+	p.recvWrites[fd] = out
+	return out
 }
 
 func (sp *SymPath) addCond(p *GoProg, env *SymEnv, ev Ev, at int) {
@@ -671,6 +800,7 @@ func (sp *SymPath) addCond(p *GoProg, env *SymEnv, ev Ev, at int) {
 // NewFuncEnv creates an environment for a function with canonical names: receiver "R", parameters by name "P:name".
 func (p *GoProg) NewFuncEnv(fd *ast.FuncDecl) *SymEnv {
 	env := newSymEnv(p)
+	env.Self, _ = p.Info.Defs[fd.Name].(*types.Func)
 	if fd.Recv != nil && len(fd.Recv.List) == 1 && len(fd.Recv.List[0].Names) == 1 {
 		env.Name(p.ObjOf(fd.Recv.List[0].Names[0]), "R")
 	}
